@@ -372,10 +372,13 @@ mod imp {
         .to_string();
         let fallible = term == "try_for_each" || term == "collect_result";
         // source: j items at once, one Pending (woken with everything else), the rest at once
-        let j = match rng.below(5) {
-            0 => n,
-            1 => n.saturating_sub(1),
-            2 => n.saturating_sub(2 + rng.below(3) as usize),
+        // (32 and 64 items in flight when the next one arrives: the slot map is exactly full)
+        let j = match rng.below(20) {
+            0..=5 if n > 32 => 32,
+            6..=7 if n > 64 => 64,
+            8..=10 => n,
+            11..=13 => n.saturating_sub(1),
+            14..=16 => n.saturating_sub(2 + rng.below(3) as usize),
             _ => std::cmp::min(n, EDGES[rng.below(EDGES.len() as u64) as usize]),
         };
         let mut steps = vec![];
@@ -395,6 +398,8 @@ mod imp {
         // (closure futures are created, woken and hence completed in index order: the k-th completion of the batch is child k)
         let bad = if !fallible || rng.chance(25) {
             0
+        } else if rng.chance(20) {
+            1 + rng.below(2) as usize
         } else if rng.chance(60) {
             let e = EDGES[rng.below(EDGES.len() as u64) as usize];
             if e <= n + 1 { e } else { 1 + rng.below(n as u64 + 1) as usize }
